@@ -328,7 +328,7 @@ func (r *Run) solveAll() {
 			if r.Dump != "" {
 				os.WriteFile(filepath.Join(r.Dump, sanitize(o.Name)+".smt2"), []byte(script), 0o644)
 			}
-			if o.Size > 400000 {
+			if o.Size > 4000000 {
 				o.Res = Result{Status: "error", Raw: "VC size cap exceeded"}
 				return
 			}
@@ -363,8 +363,9 @@ func (r *Run) solveBatch(chunk []*Obligation) {
 		b.WriteString(d)
 		b.WriteByte('\n')
 	}
-	for _, o := range chunk {
-		b.WriteString("(push 1)\n(assert " + or(o.disjuncts...) + ")\n(check-sat)\n(pop 1)\n")
+	for i, o := range chunk {
+		// each answer is bracketed by a marker so that an (error ...) can never shift the results
+		b.WriteString(fmt.Sprintf("(echo \"#begin %d\")\n(push 1)\n(assert %s)\n(check-sat)\n(pop 1)\n(echo \"#end %d\")\n", i, or(o.disjuncts...), i))
 	}
 	script := b.String()
 	if len(script) > 8000000 {
@@ -385,21 +386,29 @@ func (r *Run) solveBatch(chunk []*Obligation) {
 	secs := time.Since(t0).Seconds()
 	noteSolver("z3-new", secs)
 	lines := strings.Split(strings.TrimSpace(string(out)), "\n")
-	k := 0
+	cur := -1
+	var got []string
 	for _, ln := range lines {
-		ln = strings.TrimSpace(ln)
-		if ln != "sat" && ln != "unsat" && ln != "unknown" && ln != "timeout" {
-			continue
+		ln = strings.Trim(strings.TrimSpace(ln), "\"")
+		switch {
+		case strings.HasPrefix(ln, "#begin "):
+			fmt.Sscanf(ln, "#begin %d", &cur)
+			got = nil
+		case strings.HasPrefix(ln, "#end "):
+			var e int
+			fmt.Sscanf(ln, "#end %d", &e)
+			// discharged only if the bracket holds exactly one answer and it is unsat
+			if e == cur && cur >= 0 && cur < len(chunk) && len(got) == 1 && got[0] == "unsat" {
+				chunk[cur].Res = Result{Status: "unsat", Solver: "z3-new", Secs: secs / float64(len(chunk))}
+				chunk[cur].Backend = "z3-new"
+				chunk[cur].Size = len(chunk[cur].disjuncts[0])
+			}
+			cur = -1
+		default:
+			if cur >= 0 {
+				got = append(got, ln)
+			}
 		}
-		if k >= len(chunk) {
-			break
-		}
-		if ln == "unsat" {
-			chunk[k].Res = Result{Status: "unsat", Solver: "z3-new", Secs: secs / float64(len(chunk))}
-			chunk[k].Backend = "z3-new"
-			chunk[k].Size = len(chunk[k].disjuncts[0])
-		}
-		k++
 	}
 }
 
